@@ -22,9 +22,11 @@ rendered through DictLoader and CachingDictLoader, sync and async (4 renders).
 
 from __future__ import annotations
 
+import asyncio
 import itertools
 import os
 import re
+import tempfile
 from typing import Any
 from typing import Iterator
 
@@ -41,6 +43,8 @@ from lv.model.inherit import scan
 from lv.model.inherit import sources
 
 from liquid2 import CachingDictLoader
+from liquid2 import CachingFileSystemLoader
+from liquid2 import FileSystemLoader
 from liquid2 import DictLoader
 from liquid2.exceptions import LiquidError
 from liquid2.exceptions import RequiredBlockError
@@ -48,6 +52,10 @@ from liquid2.exceptions import TemplateInheritanceError
 from liquid2.exceptions import TemplateNotFoundError
 
 OUTPUT_LIMIT = 200_000
+def _fs_safe(name: str) -> bool:
+    return bool(re.fullmatch(r"[A-Za-z0-9_][A-Za-z0-9_.-]*", name))
+
+
 MODES = ("dict/sync", "dict/async", "caching/sync", "caching/async")
 
 # ----------------------------------------------------------------------------- building templates
@@ -557,6 +565,8 @@ class C08(Prop):
             return await t.render_async(**data)
 
         try:
+            if mode == "async-loop":  # file system loaders suspend in an executor and need a running loop
+                return "ok", asyncio.run(go())
             if mode == "async":
                 return "ok", run_coro(go())
             return "ok", env.get_template(entry).render(**data)
@@ -603,6 +613,20 @@ class C08(Prop):
             env = make_env(loader=loader_cls(dict(srcs)), limits={"output_stream_limit": OUTPUT_LIMIT})
             for mode in ("sync", "async"):
                 got[f"{lk}/{mode}"] = self._render(env, entry, data, mode)
+        if (digest(case) % 5 == 0 or kind == "err") and all(_fs_safe(n) for n in srcs):
+            # loaders that name a template by its resolved path, not by the name written in `extends`
+            with tempfile.TemporaryDirectory(prefix="lv-c08-") as tmp:
+                for n, text in srcs.items():
+                    # looked up through the loader's default extension: Template.name ("t0.liquid") then differs
+                    # from the name written in `extends` ("t0")
+                    with open(os.path.join(tmp, n if "." in n else n + ".liquid"), "w", encoding="utf-8",
+                              newline="") as fd:
+                        fd.write(text)
+                env = make_env(loader=FileSystemLoader(tmp, ext=".liquid"), limits={"output_stream_limit": OUTPUT_LIMIT})
+                got["fs/sync"] = self._render(env, entry, data, "sync")
+                env = make_env(loader=CachingFileSystemLoader(tmp, ext=".liquid"), limits={"output_stream_limit": OUTPUT_LIMIT})
+                got["cfs/async"] = self._render(env, entry, data, "async-loop")
+            res.labels.append("fs-loaders")
         res.evaluations = len(got)
 
         # ---- labels / non-triviality
@@ -640,7 +664,7 @@ class C08(Prop):
 
         mismatch_modes: list[str] = []
         mismatch_detail = ""
-        for mode in MODES:
+        for mode in got:
             g_kind, g_val = got[mode]
             if g_kind == "crash" and kind == "err" and want == "recursive" and isinstance(g_val, RecursionError):
                 # an infinite page; Python's own limit may be hit before the context depth limit (C02's subject)
@@ -685,7 +709,7 @@ class C08(Prop):
                     f"{type(g_val).__name__}: {str(g_val).splitlines()[0][:200]}")
 
         if mismatch_modes:
-            pattern = "all-modes" if len(mismatch_modes) == len(MODES) else "+".join(mismatch_modes)
+            pattern = "all-modes" if len(mismatch_modes) == len(got) else "+".join(mismatch_modes)
             feats = [f for f, on in (("nested", info.nested_override or info.nested_dropped),
                                      ("super", info.super_used)) if on]
             problems[f"output-mismatch:{pattern}:{'+'.join(feats) or 'flat'}"] = ("resolution", mismatch_modes, mismatch_detail)
